@@ -280,6 +280,34 @@ def resultNames (label globalDim : String) : List String :=
    s!"species_{label}", s!"initial_concentration_{label}", s!"to_species_{label}",
    s!"from_species_{label}"]
 
+/-! ## several decay megacomplexes in one dataset model (`finalize_data`, `combine_megacomplex_matrices`) -/
+
+/-- what one decay megacomplex contributes: its compartments (clp labels), rates and A-matrix -/
+structure Mega (α : Type) where
+  comps : List String
+  rs : List α
+  A : Nat → Nat → α
+
+/-- `finalize_data`: `all_species`, the compartments of all decay megacomplexes of the dataset model,
+    first occurrence first (`if species not in all_species: all_species.append(species)`) -/
+def allSpecies (compss : List (List String)) : List String :=
+  compss.foldl (fun acc cs => cs.foldl addIfNew acc) []
+
+/-- `array.sel(species=labels)` / `matrix.sel(clp_label=labels)` on the last axis of a table whose
+    columns are labelled `all`: column `c` of the selection is the column labelled `labels[c]` -/
+def selCols (all : List String) (m : Nat → Nat → α) (labels : List String) (g c : Nat) : α :=
+  m g (all.idxOf (labels.getD c ""))
+
+/-- `dataset[species_associated_*].sel(species=species).values @ a_matrix.T` of one megacomplex when the
+    species-associated table covers the species of all decay megacomplexes -/
+def dasSel (all : List String) (sasAll : Nat → Nat → α) (m : Mega α) (g l : Nat) : α :=
+  dasAt m.comps.length (selCols all sasAll m.comps) m.A g l
+
+/-- column `s` of the combined matrix (`combine_megacomplex_matrices` adds the columns of equal clp
+    labels), i.e. `species_concentration` of species `s`: the terms of every megacomplex that has `s` -/
+def combinedTerm (ms : List (Mega α)) (t : α) (s : String) : List (α × α) :=
+  ms.flatMap (fun m => if m.comps.contains s then concTerm m.rs m.A t (m.comps.idxOf s) else [])
+
 /-! ## certificates for the external calls (what the theorems assume about `Ext`) -/
 
 def matMulAt (n : Nat) (A B : Nat → Nat → α) (i j : Nat) : α :=
@@ -421,6 +449,31 @@ def usesSeqFormula (kind : Kind) (isSeq : Bool) : Bool :=
   | .par => false
   | .seq => true
 
+/-- rates and A-matrix of one megacomplex description as `calculate_matrix` /
+    `retrieve_decay_associated_data` obtain them (`degenerate` / `nocert` = no answer) -/
+def calcCore (kind : Kind) (e : EigIn) (p : Parts Rat) : Except String (List Rat × (Nat → Nat → Rat)) :=
+  let n := p.n
+  let isSeq := isSequential n (reducedAt p.es) p.j
+  if usesSeqFormula kind isSeq && aSeqDegenerate n (fun m => fullAt p.es m m) then .error "degenerate" else
+  match mkExt n (fullAt p.es) p.j e (usesGeneral kind isSeq) with
+  | none => .error "nocert"
+  | some ext =>
+    let rs := p.ratesOf ext
+    if rs.length ≠ n then .error "nocert" else .ok (rs, p.aMatrixOf ext kind)
+
+/-- one megacomplex of a `multi` line: `[kind, eig, args…]` -/
+def parseMega : Tree → Option (Except String (Mega Rat))
+  | .list (k :: eig :: args) => do
+    let kind ← parseKind k
+    let e ← parseEig eig
+    match ← parseParts kind args with
+    | .error err => some (.error (showErr err))
+    | .ok p =>
+      match calcCore kind e p with
+      | .error msg => some (.error msg)
+      | .ok (rs, A) => some (.ok ⟨p.comps, rs, A⟩)
+  | _ => none
+
 def driverStep (s : Unit) (ts : List Tree) : Unit × String :=
   let out : Option String :=
     match ts with
@@ -459,17 +512,30 @@ def driverStep (s : Unit) (ts : List Tree) : Unit × String :=
       | .error e => some (showErr e)
       | .ok p =>
         let n := p.n
-        let isSeq := isSequential n (reducedAt p.es) p.j
-        if usesSeqFormula kind isSeq && aSeqDegenerate n (fun m => fullAt p.es m m) then some "degenerate" else
-        match mkExt n (fullAt p.es) p.j e (usesGeneral kind isSeq) with
-        | none => some "nocert"
-        | some ext =>
-          let rs := p.ratesOf ext
-          let A := p.aMatrixOf ext kind
-          if rs.length ≠ n then some "nocert" else
+        match calcCore kind e p with
+        | .error msg => some msg
+        | .ok (rs, A) =>
           let terms := times.map (fun t => (List.range n).map (fun c => showTerm (concTerm rs A t c)))
           let lts := (lifetimes rs).map (showOpt showRat)
           some s!"ok {showStrs p.comps} {showRats rs} {showRows (table n A)} {showList lts} {showList (terms.map showList)}"
+    | .atom "multi" :: times :: megas => do
+      let times ← times.rats?
+      let parsed ← megas.mapM parseMega
+      match parsed.mapM id with
+      | .error msg => some msg
+      | .ok ms =>
+        let all := allSpecies (ms.map (fun m => m.comps))
+        let terms := times.map (fun t => all.map (fun sp => showTerm (combinedTerm ms t sp)))
+        some s!"ok {showStrs all} {showList (terms.map showList)}"
+    | [.atom "allspecies", cs] => do
+      some s!"ok {showStrs (allSpecies (← Tree.listOf? Tree.strs? cs))}"
+    | [.atom "dassel", all, sasT, c, a] => do
+      let all ← all.strs?
+      let sas ← sasT.ratss?
+      let comps ← c.strs?
+      let A ← a.ratss?
+      let m : Mega Rat := ⟨comps, [], rowsFn A⟩
+      some s!"ok {showRows (sas.zipIdx.map (fun gi => (List.range A.length).map (fun l => dasSel all (rowsFn sas) m gi.2 l)))}"
     | [.atom "das", a, sasT, nc] => do
       let A ← a.ratss?
       let sas ← sasT.ratss?
